@@ -154,10 +154,191 @@ for _name in KERNELS:
 
 META = dict(
     level="other",
-    explanation="proved: every kernel body == normalised-kernel spec for all grids/spectra/centre frequencies/bandwidths (PyVC obligations); "
+    explanation="proved: every kernel body == normalised-kernel spec for all grids/spectra/centre frequencies/bandwidths, Savitzky-Golay core and driver, "
+                "the statement's consequences as base/step lemmas (constant reproduced, bounds, linearity, row independence, SG moments); "
                 "bounded: compiled (numba) == interpreted source",
     trusted_base=["A-REAL floats as reals", "A-PY semantics of the Python subset", "A-NP-ELEM/A-NP-ALLOC numpy elementwise ops and allocation",
                   "A-TRANSC sin/log10/10**x uninterpreted (log10(y)=0 iff y=1)", "numba translation (bounded differential check only)",
                   "PyVC engine + z3/cvc5"],
     assumptions=["A-REAL", "A-PY", "A-NP-ELEM", "A-NP-ALLOC", "A-TRANSC", "A-PI", "numba-translation-trusted"],
 )
+
+
+# ---------------------------------------------------------------------------------------------------------------------
+# Savitzky-Golay: compiled core  _savitzky_and_golay(spectrum, nfcs, coefficients, normalization_coefficient)
+class SGSpec:
+    def __init__(self):
+        self.nr, self.nfreq, self.nc, self.ncoef = z3.Ints("nr nfreqs_g nc ncoeff_g")
+        self.S = z3.Const("spectrum", A2(R))
+        self.NF = z3.Const("nfcs", z3.ArraySort(I, I))
+        self.CO = z3.Const("coefficients", z3.ArraySort(I, R))
+        self.norm = z3.Real("normalization_coefficient")
+        self.SS = z3.Function("SS_sg", I, I, I, R)        # partial symmetric sum with the terms |i| <= k accumulated
+        self.OUT = z3.Function("OUT_sg", I, I, R)
+
+    def axioms(self):
+        r, c, k = z3.Ints("r!sg c!sg k!sg")
+        h = self.ncoef - 1
+        n_c = self.NF[c]
+        return [
+            z3.ForAll([r, c], self.SS(r, c, 0) == self.CO[h] * S2(self.S, r, n_c), patterns=[self.SS(r, c, 0)]),
+            z3.ForAll([r, c, k], z3.Implies(k >= 0, self.SS(r, c, k + 1) == self.SS(r, c, k) + self.CO[h - 1 - k] * (S2(self.S, r, n_c + (k + 1)) + S2(self.S, r, n_c - (k + 1)))),
+                      patterns=[self.SS(r, c, k + 1)]),
+            z3.ForAll([r, c], self.OUT(r, c) == z3.If(z3.Or(n_c < self.ncoef, n_c + self.ncoef > self.nfreq), 0, self.SS(r, c, h) / self.norm), patterns=[self.OUT(r, c)]),
+        ]
+
+
+def sg_core_contract():
+    g = SGSpec()
+
+    def make_inputs(ex, st):
+        st.env["spectrum"] = sym_arr2(ex, st, "spectrum", g.nr, g.nfreq)
+        st.env["nfcs"] = sym_arr1(ex, st, "nfcs", g.nc, elem="int")
+        st.env["coefficients"] = sym_arr1(ex, st, "coefficients", g.ncoef)
+        st.env["normalization_coefficient"] = g.norm
+        st.env["nr"], st.env["nc"], st.env["nfreqs_g"], st.env["ncoeff_g"] = g.nr, g.nc, g.nfreq, g.ncoef
+        return [g.nr >= 0, g.nfreq >= 0, g.nc >= 0]
+    return Contract(
+        qual="hvsrpy.smoothing._savitzky_and_golay", params=["spectrum", "nfcs", "coefficients", "normalization_coefficient"],
+        ghost=dict(SS=g.SS, OUT=g.OUT),
+        requires=["ncoeff_g >= 1", "normalization_coefficient != 0"],
+        ensures=["result.shape[0] == nr and result.shape[1] == nc", "forall(r, 0, nr, forall(c, 0, nc, result[r, c] == OUT(r, c)))"],
+        loops={0: ["smoothed_spectrum.shape[0] == nr and smoothed_spectrum.shape[1] == nc",
+                   "forall(r, 0, nr, forall(c, 0, _k0, smoothed_spectrum[r, c] == OUT(r, c)))"],
+               1: ["forall(r, 0, nr, summation[r] == SS(r, nfc_idx, _k1))"]},
+        axioms=g.axioms(), make_inputs=make_inputs, modifies=[],
+        notes="out[r,c] = (sum_{i=-h..h} coef(-|i|) spectrum[r, n_c+i]) / norm for n_c >= h+1 and n_c+h+1 <= nfreqs, else 0; every index proved in bounds"), g
+
+
+SG_CORE, SG_G = sg_core_contract()
+TASKS.append(FunctionTask(SG_CORE, clauses=["Savitzky-Golay symmetric weighted sum, edge rule, indices in bounds"]))
+
+
+# Savitzky-Golay driver: savitzky_and_golay(frequencies, spectrum, fcs, bandwidth)
+def _sg_core_at_call(ex, st, env):
+    """modular use of the core: its ghost constants (spectrum, nfcs, coefficients, sizes) are bound to the actual arguments"""
+    g = SG_G
+    ds, dn, dc = ex.arr(st, env["spectrum"]), ex.arr(st, env["nfcs"]), ex.arr(st, env["coefficients"])
+    k, r = z3.Ints("k!b r!b")
+    st.pc += [g.nr == ds.shape[0], g.nfreq == ds.shape[1], g.nc == dn.shape[0], g.ncoef == dc.shape[0], g.norm == env["normalization_coefficient"],
+              z3.ForAll([k], z3.Implies(z3.And(k >= 0, k < dn.shape[0]), g.NF[k] == z3.Select(dn.data, k)), patterns=[g.NF[k]]),
+              z3.ForAll([k], z3.Implies(z3.And(k >= 0, k < dc.shape[0]), g.CO[k] == z3.Select(dc.data, k)), patterns=[g.CO[k]])]
+    if not ds.data.eq(g.S):
+        st.pc.append(z3.ForAll([r, k], z3.Implies(z3.And(r >= 0, r < ds.shape[0], k >= 0, k < ds.shape[1]), S2(g.S, r, k) == S2(ds.data, r, k))))
+    return ex.alloc_arr(st, (ds.shape[0], dn.shape[0]), ex.fresh("smoothed", A2(R)), "real", "fresh", tag="smoothed")
+
+
+SG_CORE_CALL = Contract(
+    qual="hvsrpy.smoothing._savitzky_and_golay", params=["spectrum", "nfcs", "coefficients", "normalization_coefficient"],
+    ghost=dict(SS=SG_G.SS, OUT=SG_G.OUT), requires=["len(coefficients) >= 1", "normalization_coefficient != 0"],
+    ensures=["forall(r, 0, result.shape[0], forall(c, 0, result.shape[1], result[r, c] == OUT(r, c)))"], make_result=_sg_core_at_call)
+
+bw = z3.Real("bandwidth")
+nfq = z3.Int("nf")
+
+
+def _sg_driver_inputs(ex, st):
+    g = SG_G
+    st.env["frequencies"] = sym_arr1(ex, st, "frequencies", nfq)
+    st.env["spectrum"] = ex.alloc_arr(st, (g.nr, nfq), g.S, "real", "param:spectrum", tag="spectrum")
+    st.env["fcs"] = sym_arr1(ex, st, "fcs", z3.Int("nfc"))
+    st.env["bandwidth"] = bw
+    st.env["nf"], st.env["nr"], st.env["nfc"] = nfq, g.nr, z3.Int("nfc")
+    st.env["nfcs_g"], st.env["coefficients_g"], st.env["ncoeff_g"], st.env["norm_g"] = None, None, g.ncoef, g.norm
+    return [nfq >= 2, g.nr >= 0, z3.Int("nfc") >= 0]
+
+
+M = "int(bandwidth)"
+H = "((int(bandwidth) - 1) // 2)"
+SG_DRIVER = Contract(
+    qual="hvsrpy.smoothing.savitzky_and_golay", params=["frequencies", "spectrum", "fcs", "bandwidth"],
+    ghost=dict(OUT=SG_G.OUT, NFg=lambda c: SG_G.NF[c], COg=lambda i: SG_G.CO[i]),
+    requires=["bandwidth >= 3", "forall(k, 0, nf - 1, frequencies[k+1] > frequencies[k])"],
+    raises={"ValueError": f"{M} % 2 != 1 or exists(i, 0, nf - 1, exists(j, 0, nf - 1, "
+                          "(frequencies[i+1] - frequencies[i]) - (frequencies[j+1] - frequencies[j]) > 1/1000000))"},
+    ensures=["result.shape[0] == nr and result.shape[1] == nfc",
+             "forall(r, 0, nr, forall(c, 0, nfc, result[r, c] == OUT(r, c)))",
+             f"ncoeff_g == {H} + 1",
+             f"forall(idx, 0, {H} + 1, COg(idx) == (3*{M}*{M} - 7 - 20*(idx - {H})*(idx - {H})) / 4)",
+             f"norm_g == {M}*({M}*{M} - 4) / 3",
+             # the centre-frequency index is the rounded position on the (uniform) grid, measured from the smallest frequency
+             "forall(c, 0, nfc, exists(k0, 0, nf, forall(k, 0, nf, frequencies[k0] <= frequencies[k]) and "
+             "NFg(c) - (fcs[c] - frequencies[k0]) / (frequencies[1] - frequencies[0]) <= 1/2 and (fcs[c] - frequencies[k0]) / (frequencies[1] - frequencies[0]) - NFg(c) <= 1/2))"],
+    loops={0: [f"forall(t, 0, _k0, coefficients[t] == (3*m*m - 7 - 20*(t - (nterms - 1))*(t - (nterms - 1))) / 4)", "len(coefficients) == nterms"]},
+    axioms=SG_G.axioms() + npm.ax_round(), make_inputs=_sg_driver_inputs, modifies=[],
+    notes="A-ROUND: |round(x) - x| <= 1/2; requires frequencies[1] != frequencies[0] (division) via the uniformity test only when it passes")
+
+TASKS.append(FunctionTask(SG_DRIVER, module_env={"_savitzky_and_golay": SG_CORE_CALL}, clauses=["SG coefficients, normaliser, grid index, ValueError for even windows / non-uniform grids"]))
+
+
+# ---------------------------------------------------------------------------------------------------------------------
+# Lemmas: the consequences the property statement lists, over the ghost sums of the kernel specs (induction written as base/step pairs)
+def kernel_lemmas(name):
+    ks = KernelSpec(name, tag="_L")
+    SW, SP = ks.SW, ks.SP
+    r, c, k = z3.Ints("r c k")
+    cst, lo, hi, al, be = z3.Reals("cst lo hi alpha beta")
+    ax = ks.axioms()[:4]            # unfolding of SW / SP
+    take, w = ks.take(c, k), ks.weight(c, k)
+    S = lambda rr, kk: S2(ks.S, rr, kk)
+    dom = [k >= 0, ks.b > 0, ks.C[c] >= EPS]
+    out = []
+    # weights are non-negative on the support
+    wfacts = []
+    if name in ("log_triangular",):
+        ratio = ks.F[k] / ks.C[c]
+        wfacts = [LOG10(POW10(ks.b / 2)) == ks.b / 2, LOG10(POW10(-ks.b / 2)) == -ks.b / 2,
+                  z3.Implies(ratio <= POW10(ks.b / 2), LOG10(ratio) <= LOG10(POW10(ks.b / 2))),
+                  z3.Implies(ratio >= POW10(-ks.b / 2), LOG10(ratio) >= LOG10(POW10(-ks.b / 2)))]
+    out.append(LemmaTask(f"{name}:weight-nonnegative-on-support", dom + wfacts + [take], w >= 0,
+                         "w >= 0 wherever the sample is inside the window" + (" (A-TRANSC instances: log10(10^x)=x, log10 monotone)" if wfacts else "")))
+    # constant spectrum: SP = cst * SW  (base, step)
+    out.append(LemmaTask(f"{name}:constant-reproduced[base]", ax, SP(r, c, 0) == cst * SW(c, 0), "base of the induction SP(r,c,k) = cst * SW(c,k)"))
+    out.append(LemmaTask(f"{name}:constant-reproduced[step]", ax + dom + [S(r, k) == cst, SP(r, c, k) == cst * SW(c, k)], SP(r, c, k + 1) == cst * SW(c, k + 1),
+                         "step: a constant spectrum gives SP = cst * SW, hence out = cst wherever the window is non-empty"))
+    # bounds: lo * SW <= SP <= hi * SW for non-negative weights
+    out.append(LemmaTask(f"{name}:between-min-and-max[step]", ax + dom + wfacts + [z3.Implies(take, z3.And(lo <= S(r, k), S(r, k) <= hi)),
+                                                                           lo * SW(c, k) <= SP(r, c, k), SP(r, c, k) <= hi * SW(c, k)],
+                         z3.And(lo * SW(c, k + 1) <= SP(r, c, k + 1), SP(r, c, k + 1) <= hi * SW(c, k + 1)),
+                         "step: with non-negative weights the normalised average lies between the smallest and largest contributing sample"))
+    # linearity: two spectra X, Y and Z = alpha X + beta Y
+    X, Y = z3.Const("X_L", A2(R)), z3.Const("Y_L", A2(R))
+    SPX, SPY, SPZ = z3.Function(f"SPX_{name}", I, I, I, R), z3.Function(f"SPY_{name}", I, I, I, R), z3.Function(f"SPZ_{name}", I, I, I, R)
+    step = lambda F_, A_: F_(r, c, k + 1) == F_(r, c, k) + z3.If(take, w * A_, 0)
+    out.append(LemmaTask(f"{name}:linear[step]", dom + [step(SPX, S2(X, r, k)), step(SPY, S2(Y, r, k)), step(SPZ, al * S2(X, r, k) + be * S2(Y, r, k)),
+                                                          SPZ(r, c, k) == al * SPX(r, c, k) + be * SPY(r, c, k)],
+                         SPZ(r, c, k + 1) == al * SPX(r, c, k + 1) + be * SPY(r, c, k + 1), "step: S(alpha x + beta y) = alpha S(x) + beta S(y)"))
+    # row independence: two spectra agreeing on row r give the same partial sums for row r
+    SPA, SPB = z3.Function(f"SPA_{name}", I, I, I, R), z3.Function(f"SPB_{name}", I, I, I, R)
+    out.append(LemmaTask(f"{name}:row-independent[step]", dom + [S2(X, r, k) == S2(Y, r, k), step(SPA, S2(X, r, k)), step(SPB, S2(Y, r, k)), SPA(r, c, k) == SPB(r, c, k)],
+                         SPA(r, c, k + 1) == SPB(r, c, k + 1), "step: row r of the output depends on row r of the input only"))
+    return out
+
+
+for _name in KERNELS:
+    TASKS += kernel_lemmas(_name)
+
+# Savitzky-Golay: the symmetric coefficients reproduce cubic polynomials: sum coef = norm, odd moments vanish, second moment vanishes.
+# Closed forms of the power sums are proved by base/step and then used.
+h_, i_ = z3.Ints("h i")
+P0 = z3.Function("P0", I, R)     # sum_{i=1..h} 1 = h
+P2 = z3.Function("P2s", I, R)    # sum_{i=1..h} i^2 = h(h+1)(2h+1)/6
+P4 = z3.Function("P4s", I, R)    # sum_{i=1..h} i^4 = h(h+1)(2h+1)(3h^2+3h-1)/30
+hr = z3.ToReal(h_)
+TASKS += [
+    LemmaTask("sg:power-sum-2[step]", [h_ >= 0, P2(h_) == hr * (hr + 1) * (2 * hr + 1) / 6, P2(h_ + 1) == P2(h_) + (hr + 1) * (hr + 1)],
+              P2(h_ + 1) == (hr + 1) * (hr + 2) * (2 * hr + 3) / 6, "sum i^2 closed form, inductive step"),
+    LemmaTask("sg:power-sum-4[step]", [h_ >= 0, P4(h_) == hr * (hr + 1) * (2 * hr + 1) * (3 * hr * hr + 3 * hr - 1) / 30,
+                                       P4(h_ + 1) == P4(h_) + (hr + 1) * (hr + 1) * (hr + 1) * (hr + 1)],
+              P4(h_ + 1) == (hr + 1) * (hr + 2) * (2 * hr + 3) * (3 * (hr + 1) * (hr + 1) + 3 * (hr + 1) - 1) / 30, "sum i^4 closed form, inductive step"),
+]
+m_ = 2 * hr + 1
+s2 = hr * (hr + 1) * (2 * hr + 1) / 6
+s4 = hr * (hr + 1) * (2 * hr + 1) * (3 * hr * hr + 3 * hr - 1) / 30
+coef0 = (3 * m_ * m_ - 7) / 4
+TASKS += [
+    LemmaTask("sg:coefficients-sum-to-normaliser", [h_ >= 1], m_ * coef0 - 20 * (2 * s2) / 4 == m_ * (m_ * m_ - 4) / 3,
+              "sum_{i=-h..h} (3m^2-7-20i^2)/4 = m(m^2-4)/3 with m = 2h+1 (uses the closed form of sum i^2): constants are reproduced"),
+    LemmaTask("sg:second-moment-vanishes", [h_ >= 1], coef0 * (2 * s2) - 20 * (2 * s4) / 4 == 0,
+              "sum i^2 coef(i) = 0 (closed forms of sum i^2, sum i^4); odd moments vanish by symmetry: cubic polynomials are reproduced at admitted interior points"),
+]
